@@ -244,15 +244,17 @@ def is_trivial_nlri(fam, raw: bytes) -> bool:
 
 
 def sentinel_first_label(fam, o, neg) -> bool:
-    """a stack of two or more labels whose first is 0 (explicit null, RFC 4182) or 524288: the value RFC 3107 used as a next-hop / withdraw marker"""
-    if fam[1] not in (4, 128) or getattr(o, '_label_size', 0) <= 3:
+    """two or more labels' worth of stack whose first label is 0 (explicit null, RFC 4182) or 524288 without the bottom-of-stack bit:
+    the values RFC 3107 speakers used as next-hop / withdraw markers, which the decoder takes as the end of the stack"""
+    if fam[1] not in (4, 128):
         return False
     try:
         raw = bytes(o._packed)
+        base = 4 if getattr(o, '_has_addpath', False) else 0
+        room = raw[base] - (64 if fam[1] == 128 else 0)
     except Exception:  # noqa: BLE001
         return False
-    base = 4 if getattr(o, '_has_addpath', False) else 0
-    return raw[base + 1 : base + 4] in (b'\x00\x00\x00', b'\x80\x00\x00')
+    return raw[base + 1 : base + 4] in (b'\x00\x00\x00', b'\x80\x00\x00') and (getattr(o, '_label_size', 0) > 3 or room >= 48)
 
 
 def nlri_laws(fam, o, neg, addpath: bool, action, x: bytes | None, canonical: bool, what: str, normalise_path: bool = False) -> bytes:
@@ -637,7 +639,8 @@ def attr_laws(code: int, flag: int, a, neg, x: bytes | None, canonical: bool, wh
     if type(a1) is not type(a):
         raise V(f'{tag}:decode-other-type', f'{what}: {type(a).__name__} packs to {b.hex()} which decodes as {type(a1).__name__}')
     if not companion:
-        attr_same(tag, a, a1, f'{what} value {b.hex()}')
+        # an accepted value that pack rewrote (b != x) is compared under its own name: the canonical path must not hide behind it
+        attr_same(tag + (':after-normalisation' if x is not None and b != x else ''), a, a1, f'{what} value {b.hex()}')
     try:
         tlv1 = bytes(a1.pack_attribute(neg))
     except Exception as exc:  # noqa: BLE001
@@ -1286,6 +1289,8 @@ def attr_fixed_cases() -> list:
     cases = [
         {'kind': 'attr', 'code': 40, 'flags': 0xC0, 'hex': '0500220001001e8020010db8000200020000000000000000000018000c0006401810000000', 'asn4': True, 'source': 'pinned:srv6-unknown-sub-sub-tlv', 'encoder': False},
         {'kind': 'attr', 'code': 23, 'flags': 0xC0, 'hex': '000f00240c050000000000640d06100005dc01008000110009060000000000010106000003e81100', 'asn4': True, 'source': 'pinned:sr-policy-unknown-sub-tlv', 'encoder': False},
+        {'kind': 'attr', 'code': 16, 'flags': 0xC0, 'hex': '800600007fc00000', 'asn4': True, 'source': 'pinned:traffic-rate-nan', 'encoder': False},
+        {'kind': 'attr', 'code': 2, 'flags': 0x40, 'hex': '0100', 'asn4': False, 'source': 'pinned:as-path-empty-segment', 'encoder': False},
     ]
     # attribute codes the vectors on disk do not reach
     for code, flags, raw, asn4 in (
